@@ -23,6 +23,7 @@ import (
 type partCfg struct {
 	Key       string // world key in the worker (e.g. C17a)
 	Pkg       string
+	Crashable bool // the worker records the scenario in execution, so that a process killed by the Go runtime can be attributed
 	Race      bool
 	Overlay   bool
 	QuickRuns int64
@@ -31,6 +32,7 @@ type partCfg struct {
 
 type propCfg struct {
 	Parts       []partCfg
+	Crashable   bool
 	Pkg         string // worlds | worldcat
 	Race        bool
 	Overlay     bool
@@ -222,7 +224,7 @@ type workerOut struct {
 func runWorker(tmp, bin string, job core.Job, cfg *propCfg, timeout time.Duration, extraEnv ...string) workerOut {
 	jobPath := filepath.Join(tmp, fmt.Sprintf("job-%d-%d.json", job.Worker, time.Now().UnixNano()))
 	job.Out = jobPath + ".out"
-	if cfg.Race {
+	if cfg.Race || cfg.Crashable {
 		job.Progress = jobPath + ".progress"
 	}
 	jb, _ := json.Marshal(job)
@@ -314,11 +316,11 @@ func partsOf(id string, cfg *propCfg) []partCfg {
 	if len(cfg.Parts) > 0 {
 		return cfg.Parts
 	}
-	return []partCfg{{Key: id, Pkg: cfg.Pkg, Race: cfg.Race, Overlay: cfg.Overlay, QuickRuns: cfg.QuickRuns, ThorRuns: cfg.ThorRuns}}
+	return []partCfg{{Key: id, Pkg: cfg.Pkg, Race: cfg.Race, Crashable: cfg.Crashable, Overlay: cfg.Overlay, QuickRuns: cfg.QuickRuns, ThorRuns: cfg.ThorRuns}}
 }
 
 func (p partCfg) asCfg() *propCfg {
-	return &propCfg{Pkg: p.Pkg, Race: p.Race, Overlay: p.Overlay}
+	return &propCfg{Pkg: p.Pkg, Race: p.Race, Overlay: p.Overlay, Crashable: p.Crashable}
 }
 
 type partFound struct {
@@ -402,7 +404,7 @@ func check(id, tier string) int {
 				found = append(found, partFound{Found: *f, part: part, bin: bin})
 				continue
 			}
-			if o.res == nil && part.Race && (strings.Contains(o.stderr, "panic: ") || strings.Contains(o.stderr, "fatal error: ")) {
+			if o.res == nil && (part.Race || part.Crashable) && (strings.Contains(o.stderr, "panic: ") || strings.Contains(o.stderr, "fatal error: ")) {
 				if cf := crashFound(tmp, bin, part, tier, seed, o); len(cf) > 0 {
 					for _, f := range cf {
 						found = append(found, partFound{Found: f, part: part, bin: bin})
@@ -411,7 +413,7 @@ func check(id, tier string) int {
 				}
 			}
 			if o.res == nil {
-				fatal2("%s worker %d produced no result: %v\n%s", part.Key, w, o.err, tail(o.stderr, 4000))
+				fatal2("%s worker %d produced no result: %v\n%s\n...\n%s", part.Key, w, o.err, core.Trunc(o.stderr, 2500), tail(o.stderr, 1500))
 			}
 			if o.res.Error != "" {
 				fatal2("%s worker %d: %s", part.Key, w, o.res.Error)
@@ -510,7 +512,7 @@ func check(id, tier string) int {
 	writeEvidence(id, tier, seed, cfg, total, len(fps), nViol, wall, capHit, det, nwUsed)
 	fmt.Printf("verif: property=%s tier=%s runs=%d evaluations=%d distinct=%d violations=%d wall=%.1fs cap_hit=%v\n",
 		id, tier, total.Runs, total.Evaluations, len(fps), nViol, wall, capHit)
-	if total.Runs == 0 {
+	if total.Runs == 0 && exit == 0 {
 		fatal2("no runs executed")
 	}
 	if len(stuck) > 0 && exit == 0 {
